@@ -47,6 +47,15 @@ func setUnexported(target any, field string, value any) error {
 	return nil
 }
 
+// unexportedField gives an addressable, settable view of an unexported struct field.
+func unexportedField(target any, field string) (reflect.Value, error) {
+	v := reflect.ValueOf(target).Elem().FieldByName(field)
+	if !v.IsValid() {
+		return reflect.Value{}, fmt.Errorf("no field %s", field)
+	}
+	return reflect.NewAt(v.Type(), unsafe.Pointer(v.UnsafeAddr())).Elem(), nil
+}
+
 func (h *harness) sequencerProbe(rng *lib.RNG) {
 	seqr := junoseq.New(nil, nil, fe(1), nil, time.Hour, log.NewNopZapLogger())
 	receipts := []*core.TransactionReceipt{}
